@@ -283,6 +283,7 @@ Proof.
   destruct (o_fs o (fw_ops w)) eqn:E0; [inversion H|].
   destruct (any_fail (o_fs o) (S (fw_ops w)) _) eqn:E1; [inversion H|].
   destruct (any_fail (o_fs o) (S (fw_ops w) + _) nw) eqn:E2; [inversion H|].
+  destruct (o_midflush o i); [inversion H|].
   destruct cut; [inversion H|].
   destruct (parse_file _ body); [inversion H|].
   destruct (o_fs o (S (fw_ops w) + _ + nw)) eqn:E3; inversion H; subst; clear H.
@@ -400,6 +401,24 @@ Proof.
     split; [exact Hn|]. rewrite Hids. apply in_or_app. right. left. reflexivity.
 Qed.
 
+(** /uploads hides uploads without records: every listed upload has a
+    non-zero number of committed records, so an upload that failed (its ID is in
+    the Uploads table, no record was committed) is never listed *)
+Theorem listing_hides_recordless_uploads (st : ustate rec) id n :
+  In (id, n) (listing rec st) ->
+  n <> 0 /\ exists recs, In (id, recs) (us_recs st) /\ n = length recs.
+Proof.
+  unfold listing. intros H. apply in_rev in H. apply in_map_iff in H as ([i recs] & E & Hin).
+  apply filter_In in Hin as [Hin Hnz]. cbn [fst snd] in *. inversion E; subst.
+  split; [|exists recs; auto]. apply negb_true_iff, Nat.eqb_neq in Hnz. exact Hnz.
+Qed.
+
+Theorem failed_upload_not_listed o st rq st' :
+  run_upload o st rq = (st', UErr) -> listing rec st' = listing rec st.
+Proof.
+  intros H. unfold listing. rewrite (upload_error_changes_no_records _ _ _ _ H). reflexivity.
+Qed.
+
 End Proofs.
 
 (** ** the recorded finding, on the model of the code as it is: a body that
@@ -409,7 +428,7 @@ Definition witness_cut_request : request :=
 
 Lemma cut_in_later_header_committed :
   exists st' fids,
-    run_upload_sf (Some (bs "20260930.1")) (mkOracle false (fun _ => false) false false)
+    run_upload_sf (Some (bs "20260930.1")) (mkOracle false (fun _ => false) (fun _ => false) false false)
                   (mkUs [] [] []) witness_cut_request = (st', UOk (bs "20260930.1") fids)
     /\ length (us_recs st') = 1.
 Proof. eexists. eexists. split; vm_compute; reflexivity. Qed.
